@@ -12,5 +12,6 @@ func init() {
 			ruleValueBuffersImmutable(r)
 			ruleReducer(r)
 			ruleSlotInList(r)
+			ruleByteAPICopies(r)
 		})
 }
